@@ -400,4 +400,19 @@ example : releasedOnEveryExit (isAwaitOf "started") (isAwaitOf "finished")
 
 end Order
 
+/-! ### the window the stubbed connect has and the real one has not -/
+
+/-- **between the answer to the last exchange of the hand-shake and the mark "connected" nothing can run**: in the regenerated skeleton of
+`GeckoAsyncSpa._connect` there is no suspension point between the successful return of the full-block transfer (and the building of
+the accessors) and `self._is_connected = True` - a reset cannot fall between them.  (The lifecycle model and the stubbed connect of
+the rig have a step there; a reset parked in it - `connect@16; reset; resume` - ends CONNECTED without a spa in the model and on the
+stub alike.  This theorem is why that history is not one of the real manager and is not searched for.) -/
+theorem connected_mark_follows_the_last_exchange_without_suspension :
+    GeckoModel.Coop.sectionsAtomic (fun a => a.kind == .call && a.name == "self.struct.build_accessors")
+      (fun a => a.kind == .set && a.name == "self._is_connected")
+      GeckoModel.Generated.Skeletons.sk_async_spa__GeckoAsyncSpa__connect = true ∧
+    GeckoModel.Coop.sectionsAtomic (fun a => a.kind == .brF && a.name.startsWith "not await self.struct.get(")
+      (fun a => a.kind == .set && a.name == "self._is_connected")
+      GeckoModel.Generated.Skeletons.sk_async_spa__GeckoAsyncSpa__connect = true := by decide +kernel
+
 end GeckoModel.C08
